@@ -56,12 +56,29 @@ pub fn gen_string(rng: &mut Rng) -> String {
 	let pool: Vec<char> = vec![
 		'"', '\\', '/', '\n', '\r', '\t', '\u{8}', '\u{c}', '\u{0}', '\u{1}', '\u{1f}', '\u{7f}', '\u{80}', '\u{9f}', '\u{a0}', '\u{2028}', '\u{2029}', '\u{feff}', '\u{fffd}', '\u{ffff}', '\u{10000}', '\u{1d11e}', '\u{10ffff}', 'ä', '€', '名', 'a', 'b', 'z', '0', ' ', ':', ',', '{', '}', '[', ']', 'u', 'n',
 	];
+	// invisible / format characters, tag characters (flag emoji), variation selectors, private use, non-characters
+	let special: [(u32, u32); 12] = [(0x200B, 0x200F), (0x202A, 0x202E), (0x2060, 0x2069), (0xFE00, 0xFE0F), (0xE000, 0xE010), (0xFFF0, 0xFFFF), (0xE0001, 0xE0001), (0xE0020, 0xE007F), (0xE0100, 0xE01EF), (0x1F3F4, 0x1F3F4), (0xF0000, 0xF0010), (0x10FFF0, 0x10FFFF)];
 	let n = rng.below(12) as usize;
-	(0..n).map(|_| if rng.chance(0.7) { *rng.pick(&pool) } else { char::from_u32(rng.below(0xD7FF) as u32).unwrap_or('x') }).collect()
+	(0..n)
+		.map(|_| match rng.below(10) {
+			0..=5 => *rng.pick(&pool),
+			6 => {
+				let (a, b) = *rng.pick(&special);
+				char::from_u32(rng.range(a as u64, b as u64) as u32).unwrap_or('x')
+			}
+			7 => char::from_u32(rng.range(0x10000, 0x10FFFF) as u32).unwrap_or('x'),
+			8 => char::from_u32(rng.range(0xE000, 0xFFFF) as u32).unwrap_or('x'),
+			_ => char::from_u32(rng.below(0xD7FF) as u32).unwrap_or('x'),
+		})
+		.collect()
 }
 
 fn gen_number(rng: &mut Rng) -> f64 {
-	match rng.below(12) {
+	match rng.below(15) {
+		// whole numbers around the limits of the integer types and the switch to exponent notation
+		12 => *rng.pick(&[9007199254740992.0, 9223372036854775808.0, 18446744073709551616.0, 18446744073709555712.0, 1e19, 2e19, 5e19, 9.9e19, 1e20, 1e21, 1e22, 123456789012345680000.0, 4294967296.0, 4294967295.0]) * if rng.bool() { 1.0 } else { -1.0 },
+		13 => (rng.next_u64() as f64) * if rng.chance(0.3) { 4.0 } else { 1.0 },
+		14 => (rng.next_u64() >> rng.below(40)) as f64 * if rng.bool() { 1.0 } else { -1.0 },
 		0 => 0.0,
 		1 => -0.0,
 		2 => f64::MIN_POSITIVE,
